@@ -574,7 +574,19 @@ func tb6ResetProtocol(p *core.Prog, rep *core.Report) {
 			Follow: func(f *ssa.Function) bool { return false },
 			Edge: func(x *core.Exec, iff *ssa.If, taken bool, a core.AState) (core.AState, bool) {
 				bo, ok := iff.Cond.(*ssa.BinOp)
-				if !ok || !core.IsNilConst(bo.Y) {
+				if !ok {
+					return a, true
+				}
+				// "the requested range lies below the mapping bound": the bound is positive only while a region is
+				// mapped (TB6: every reset stores 0 to it; the remapping helper raises it and maps), so this edge
+				// implies 'mapped' for every non-empty range
+				if f, _ := core.LoadedField(bo.Y); f != nil && f == bound && taken && (bo.Op == token.LEQ || bo.Op == token.LSS) {
+					return "M", true
+				}
+				if f, _ := core.LoadedField(bo.X); f != nil && f == bound && taken && (bo.Op == token.GEQ || bo.Op == token.GTR) {
+					return "M", true
+				}
+				if !core.IsNilConst(bo.Y) {
 					return a, true
 				}
 				if f, _ := core.LoadedField(bo.X); f == R.MMapMap {
@@ -747,6 +759,22 @@ func tb6bUnmappedUse(p *core.Prog, rep *core.Report) {
 	if remap == nil {
 		core.Failf("role unresolved: MMap remapping helper (caller of mmap.MapRegion)")
 	}
+	// the mapping bound: the int64 field of MMap that Size() does not report (same resolution as TB6)
+	var bound *types.Var
+	{
+		var sizeField *types.Var
+		for _, r := range core.Returns(p.MustMethod(R.MMap, "Size")) {
+			if f, _ := core.LoadedField(core.ReturnOperand(r, 0)); f != nil {
+				sizeField = f
+			}
+		}
+		st := R.MMap.Underlying().(*types.Struct)
+		for i := 0; i < st.NumFields(); i++ {
+			if f := st.Field(i); f != sizeField && core.TypeIs(f.Type(), "int64") {
+				bound = f
+			}
+		}
+	}
 	n := 0
 	ms := p.SSA.MethodSets.MethodSet(types.NewPointer(R.MMap))
 	for i := 0; i < ms.Len(); i++ {
@@ -761,7 +789,17 @@ func tb6bUnmappedUse(p *core.Prog, rep *core.Report) {
 			Follow: func(f *ssa.Function) bool { return core.RecvNamed(f) == R.MMap && f != remap },
 			Edge: func(x *core.Exec, iff *ssa.If, taken bool, a core.AState) (core.AState, bool) {
 				bo, ok := iff.Cond.(*ssa.BinOp)
-				if !ok || !core.IsNilConst(bo.Y) {
+				if !ok {
+					return a, true
+				}
+				// range below the mapping bound => mapped (see TB6)
+				if f, _ := core.LoadedField(bo.Y); f != nil && f == bound && taken && (bo.Op == token.LEQ || bo.Op == token.LSS) {
+					return "M", true
+				}
+				if f, _ := core.LoadedField(bo.X); f != nil && f == bound && taken && (bo.Op == token.GEQ || bo.Op == token.GTR) {
+					return "M", true
+				}
+				if !core.IsNilConst(bo.Y) {
 					return a, true
 				}
 				if f, _ := core.LoadedField(bo.X); f == R.MMapMap {
